@@ -51,13 +51,15 @@ var bs = _.bindings;
 var m = bs["?m"];
 var mid = _.props.mid;
 var log = bs.log || [];
+var marks = bs.marks || [{"n": 0}];
 if (m && typeof m === "object") {
   log.push(m.id === undefined ? null : m.id);
-  if (m.nan && m.nan[mid]) { return {"log": log, "bad": 0/0}; }
+  marks[0].n = marks[0].n + 1; // an object inside an array, updated in place
+  if (m.nan && m.nan[mid]) { return {"log": log, "marks": marks, "bad": 0/0}; }
   var emits = (m.emit && m.emit[mid]) || [];
   for (var i = 0; i < emits.length; i++) { _.out(emits[i]); }
 }
-return {"log": log};
+return {"log": log, "marks": marks};
 `
 
 var svRunSeq int64
